@@ -445,11 +445,27 @@ pub fn run(tier: Tier, seed: u64) -> i32 {
         }
         let timed: Vec<usize> = (0..prs.len()).filter(|i| prs[*i].timed && matches!(&refs[*i], Ok(r) if r.long_seq.len() >= 2)).collect();
         if !timed.is_empty() {
-            let res = run_parallel(16, counts.len(), |ci| {
+            // around the periods 2^8 and 2^9 the probe is, in addition, a repetition-sensitive one
+            // (lost side to move, one shuffle cycle behind it: positions with count one that are
+            // two plies away - a record that comes back to life or is counted twice turns them into
+            // draws), three different ones per count
+            let mut plan: Vec<(usize, Option<usize>)> = counts.iter().map(|n| (*n, None)).collect();
+            let rep: Vec<usize> = timed.iter().copied().filter(|i| i % 5 == 0).collect();
+            if !rep.is_empty() {
+                for n in [254usize, 255, 256, 510, 511, 512] {
+                    for k in 0..3 {
+                        plan.push((n, Some(rep[(k * 7 + n) % rep.len()])));
+                    }
+                }
+            }
+            let res = run_parallel(16, plan.len(), |ci| {
                 let mut acc = Acc::new();
-                let n = counts[ci];
+                let (n, forced) = plan[ci];
                 let mut rng = Rng::stream(seed, 0xC16_A000 + ci as u64);
-                let idx = timed[rng.below(timed.len() as u64) as usize];
+                let idx = forced.unwrap_or_else(|| timed[rng.below(timed.len() as u64) as usize]);
+                if forced.is_some() {
+                    acc.feature("long_session_with_a_repetition_sensitive_probe_at_a_counter_period");
+                }
                 let probe = &prs[idx];
                 let reference = match &refs[idx] {
                     Ok(r) => r,
